@@ -397,8 +397,20 @@ class StmtMixin(ContractMixin):
         return True
 
     def log_local_add(self, st, name, op, rhs, s):
+        if isinstance(op, ast.BitOr):
+            # set accumulation  acc |= delta : the union over all iterations (order independent)
+            hs = rhs if isinstance(rhs, HSet) else self.as_hset(st, rhs, None)
+            g = t_and(*st.pc[st.rec[-1].pc_len:])
+            st.rec[-1].effects.append(Effect("unionlocal", None, (), hs, g, name=name, where=self.where(s, st)))
+            return
+        if isinstance(op, ast.Add) and isinstance(rhs, VFam) and rhs.kind in ("list", "gen"):
+            # list accumulation  acc += [e for ...] : all elements of all iterations (as a bag: the order across iterations
+            # is not modelled, only aggregates / membership can consume the result)
+            g = t_and(*st.pc[st.rec[-1].pc_len:])
+            st.rec[-1].effects.append(Effect("extendlocal", None, (), rhs, g, name=name, where=self.where(s, st)))
+            return
         if not isinstance(op, (ast.Add, ast.Sub)):
-            raise Unsupported("accumulator updated with an operator other than +=/-=")
+            raise Unsupported("accumulator updated with an operator other than +=/-=/|=")
         delta = rhs if isinstance(op, ast.Add) else self.binop(st, ast.Sub(), VInt(0), rhs)
         g = t_and(*st.pc[st.rec[-1].pc_len:])
         st.rec[-1].effects.append(Effect("addlocal", None, (), delta, g, name=name, where=self.where(s, st)))
@@ -866,6 +878,35 @@ class StmtMixin(ContractMixin):
                     continue
                 d = self.sum_value(st, binders, ef.guard, ef.value)
                 st.frame_set(ef.name, self.binop(st, ast.Add(), cur, d)) if hasattr(st, "frame_set") else self.set_existing(st, ef.name, self.binop(st, ast.Add(), cur, d))
+                continue
+            if ef.kind == "extendlocal":
+                fam = ef.value
+                allb = list(fam.binders) + list(binders)
+                allg = t_and(ef.guard, fam.guard)
+                cur = st.frame.lookup(ef.name)
+                if isinstance(cur, VAccum):
+                    self.log_local_add(st, ef.name, ast.Add(), VFam("list", allb, allg, fam.elem), s)
+                    continue
+                hcur = self.resolve(st, cur) if isinstance(cur, VRef) else None
+                if not (isinstance(hcur, HList) and not hcur.items):
+                    raise Unsupported("summarised list accumulation into a non-empty list")
+                self.write_h(st, cur, HBag(allb, allg, fam.elem))
+                continue
+            if ef.kind == "unionlocal":
+                hs = ef.value
+                mem = self.exists(list(binders), t_and(ef.guard, hs.mem)) if binders else t_and(ef.guard, hs.mem)
+                u = HSet(hs.kty, hs.binder, z3.simplify(mem))
+                cur = st.frame.lookup(ef.name)
+                if isinstance(cur, VAccum):
+                    self.log_local_add(st, ef.name, ast.BitOr(), u, s)   # nested loop: forward to the enclosing summary
+                    continue
+                base = self.as_hset(st, cur, u)
+                u2 = subst(u, [(u.binder, base.binder)])
+                new = HSet(base.kty, base.binder, t_or(base.mem, u2.mem))
+                if isinstance(cur, VRef):
+                    self.write_h(st, cur, new)
+                else:
+                    self.set_existing(st, ef.name, self.alloc(st, new))
                 continue
             if ef.kind == "emit":
                 self.emit_family(st, ef, binders)
